@@ -115,6 +115,8 @@ def run(res, tier, seed):
                     nm = "NSS.%s.%s.D03095.S0607.E0609.B0000000.WI" % (m, p)
                     files.append((fmt, nm, "ascii"))
             files.append((fmt, "NSS.%s.%s.D03095.S0607.E0609.B0000000.WI" % (ml[0], idl[0]), "ebcdic"))
+            if fam == "pod":       # the 44-byte name field padded with non-ASCII bytes behind the 42-character name
+                files.append((fmt, "NSS.%s.%s.D03095.S0607.E0609.B0000000.WI" % (ml[-1], idl[1]), "highpad"))
             files.append((fmt, "NSS.%s.%s.D03095.S0607.E0609.B0000000.WI" % (ml[-1], idl[-1]), "filename-only"))
             files.append((fmt, "NSS.%s.%s.D03095.S0607.E0609.B0000000.WI" % (ml[0], "XX"), "ascii"))        # unknown platform
             files.append((fmt, "NSS.%s.%s.D03095.S0607.E0609.B0000000.WI" % ("XXXX", idl[0]), "ascii"))    # unknown mode
@@ -122,6 +124,9 @@ def run(res, tier, seed):
         for fmt, nm, enc in files:
             if enc == "ebcdic":
                 data = make_file(fmt, nm, header_name=nm.encode("cp500"))
+                fname = "somefile"
+            elif enc == "highpad":
+                data = make_file(fmt, nm, header_name=nm.encode("ascii") + rng.choice([b"\x80\x80", b"\xff\xff", b" \xe9"]))
                 fname = "somefile"
             elif enc == "filename-only":
                 data = make_file(fmt, nm, header_name=b"\x00" * 42)
